@@ -27,7 +27,7 @@ func (r *runner) complete(seq *chain.Node, seed uint64, ctx blockCtx, parent *fe
 		hh := h
 		f.TxHashes = append(f.TxHashes, &hh)
 		jh, err := core.TransactionHash(tx, network)
-		if err != nil || !jh.Equal(&h) {
+		if err != nil || !jh.Equal(&h) { // (for the kinds juno does not recompute both sides are the declared hash)
 			return nil, fmt.Sprintf("tx-hash:%s: juno %s (%v) model %s", b.Kinds[i], &jh, err, &h)
 		}
 		r.c.Hist["tx:"+b.Kinds[i]]++
@@ -71,7 +71,7 @@ func (r *runner) complete(seq *chain.Node, seed uint64, ctx blockCtx, parent *fe
 			return f, fmt.Sprintf("event-commitment:%s: juno %s model %s", name, cm.EventCommitment, &mh.EvC)
 		case !cm.ReceiptCommitment.Equal(&mh.RcC):
 			return f, fmt.Sprintf("receipt-commitment:%s: juno %s model %s", name, cm.ReceiptCommitment, &mh.RcC)
-		case !cm.StateDiffCommitment.Equal(&mh.SdH):
+		case cm.StateDiffCommitment != nil && !cm.StateDiffCommitment.Equal(&mh.SdH):
 			return f, fmt.Sprintf("state-diff-hash:%s: juno %s model %s", name, cm.StateDiffCommitment, &mh.SdH)
 		case cm.StateDiffLength != mh.SdLen:
 			return f, fmt.Sprintf("state-diff-length:%s: juno %d model %d", name, cm.StateDiffLength, mh.SdLen)
@@ -148,6 +148,10 @@ func (r *runner) runChain(seed uint64) {
 						r.c.Hist["carved-out:0.13.2-empty-vs-zero-signature"]++
 						continue
 					}
+					if !committedIn(t, name) {
+						r.c.Hist["not-committed-in-post07-format"]++
+						continue
+					}
 					applied := false
 					forEachTamper(t, func(n string, mutate func()) {
 						if n == name && !applied {
@@ -208,6 +212,9 @@ func (r *runner) runChain(seed uint64) {
 		}
 		if len(r.c.Samples) < 4 {
 			r.c.Sample(map[string]any{"chain": seed, "block": i, "version": ctx.Version, "txs": mk().Kinds, "tamperings": len(names), "hash": f.Hash.String()})
+		}
+		if r.only == nil {
+			r.probes(valid, mk, fols)
 		}
 		valid = append(valid, mk)
 		parent = f.Hash
@@ -281,7 +288,7 @@ func tamperKind(name string) string {
 // carvedOut: the one single-field change that the 0.13.2 format maps to the same leaf by design of the
 // protocol (empty signature hashed as [0]): [0] -> [] is not a tampering of a committed value there.
 func carvedOut(b *Built, name string) bool {
-	if b.Block.ProtocolVersion >= "0.13.4" {
+	if b.Block.ProtocolVersion >= "0.13.4" || b.Block.ProtocolVersion < "0.13.2" {
 		return false
 	}
 	var idx int
